@@ -244,8 +244,12 @@ func checkRecursiveTemplate(ctx *Ctx, r *Report, ts *tmplSet, rt recTemplate, va
 		okRefScalar := false
 		if b != nil {
 			walkTmpl(b.body, func(m parse.Node) bool {
-				if tn, ok := m.(*parse.TemplateNode); ok && tn.Name == rt.leafMarker && strings.Contains(dictArgs(tn.Pipe)["Constraints"], "resolveRefs") {
-					okRefScalar = true
+				if tn, ok := m.(*parse.TemplateNode); ok && tn.Name == rt.leafMarker {
+					constraints := dictArgs(tn.Pipe)["Constraints"]
+					// from the resolved type: directly, or through a variable of the branch that holds it
+					if strings.Contains(constraints, "resolveRefs") || (strings.HasPrefix(constraints, "$") && strings.Contains(tmplTextFull(b.body), strings.SplitN(constraints, ".", 2)[0]+" := resolveRefs")) {
+						okRefScalar = true
+					}
 				}
 				return true
 			})
@@ -287,6 +291,7 @@ func checkC08(ctx *Ctx, r *Report) {
 	c13NilTestExcludesConstantRefs(ctx, r, ts, recValidate.define)
 	c08StrictSkeleton(ctx, r, ts)
 	c08StrictElementNull(ctx, r, ts)
+	c08FifthHunt(ctx, r, ts)
 	c12UnionWrapperClassified(ctx, r)
 	c08WholesaleLeafOnly(ctx, r)
 	c09OperatorTable(ctx, r)
@@ -614,7 +619,19 @@ func c08StrictSkeleton(ctx *Ctx, r *Report, ts *tmplSet) {
 		return true
 	})
 	norm := func(s string) string { return strings.Join(strings.Fields(s), " ") }
-	r.Check(norm(conds["null"]) == "and $field.Required (not $field.Type.Nullable)", "skeleton/strict-decoder", "null rejected iff required and not nullable", token.NoPos, "condition: "+conds["null"],
+	// Required ∧ ¬Nullable, the nullability being that of the field's type or of the type a reference leads to: the
+	// condition is a conjunction that starts with these two tests, and whose other conjuncts speak of nullability only
+	nullCond := norm(conds["null"])
+	nullOK := false
+	if rest, ok := strings.CutPrefix(nullCond, "and $field.Required (not $field.Type.Nullable)"); ok {
+		nullOK = true
+		for _, conjunct := range splitTopLevel(strings.TrimSpace(rest)) {
+			if !strings.HasPrefix(conjunct, "(not ") || !strings.Contains(conjunct, "Nullable") {
+				nullOK = false
+			}
+		}
+	}
+	r.Check(nullOK, "skeleton/strict-decoder", "null rejected iff required and not nullable", token.NoPos, "condition: "+conds["null"],
 		file+": the 'required field is null' error is emitted under `"+conds["null"]+"` instead of Required ∧ ¬Nullable")
 	r.Check(norm(conds["missing"]) == "and $field.Required (eq $field.Type.Default nil)", "skeleton/strict-decoder", "missing rejected iff required without default", token.NoPos, "condition: "+conds["missing"],
 		file+": the 'required field is missing' error is emitted under `"+conds["missing"]+"` instead of Required ∧ Default == nil")
@@ -1803,4 +1820,199 @@ func c13FourthHunt(ctx *Ctx, r *Report, ts *tmplSet, branches []tmplBranch) {
 	}
 	r.Count("hunted clauses of Equals (4th hunt)", n)
 	r.Floor("hunted clauses of Equals (4th hunt)", 3)
+}
+
+// splitTopLevel splits the arguments of a pipeline written as text at the spaces that are not inside parentheses.
+func splitTopLevel(s string) []string {
+	var out []string
+	depth, start := 0, 0
+	for i, c := range s {
+		switch c {
+		case '(':
+			depth++
+		case ')':
+			depth--
+		case ' ':
+			if depth == 0 {
+				if i > start {
+					out = append(out, s[start:i])
+				}
+				start = i + 1
+			}
+		}
+	}
+	if start < len(s) {
+		out = append(out, s[start:])
+	}
+	return out
+}
+
+// c08FifthHunt — fifth hunt:
+//   - a fractional bound of an integer (`minimum: 0.5`) admits the integers from 1: the OpenAPI front-end rounds it
+//     up for a lower bound and down for an upper bound (it truncated towards zero: `>= 0`), the JSON Schema front-end
+//     takes operator and argument of every bound from a helper that knows whether the bound is an integer (it kept the
+//     float: `resource.Level >= 0.5` on an int64 does not compile);
+//   - JSON Schema: a reference is all the IR keeps of a schema that has `$ref`; walkRef leaves with an error when bounds
+//     are written next to it (2019-09 and later apply them together with the referred schema);
+//   - nullability can sit on the type a reference leads to (`MaybeName: string | null`): the strict decoder consults it
+//     before it answers `required field is null`, and Validate tests such an alias — a pointer — against nil before it
+//     looks at what it points to.
+func c08FifthHunt(ctx *Ctx, r *Report, ts *tmplSet) {
+	n := 0
+	// (a)
+	if fn := ctx.LookupFunc("internal/openapi", "getConstraints"); fn == nil {
+		r.Undecided("anchor lost: openapi.getConstraints")
+	} else if fd, p := ctx.DeclOf(fn); fd != nil {
+		info := p.TypesInfo
+		calls := map[string]bool{}
+		ast.Inspect(fd.Body, func(m ast.Node) bool {
+			if c, ok := m.(*ast.CallExpr); ok {
+				if f := callee(info, c); f != nil && f.Pkg() != nil && f.Pkg().Path() == "math" {
+					calls[f.Name()] = true
+				}
+			}
+			return true
+		})
+		n++
+		r.Check(calls["Ceil"] && calls["Floor"], "frontier/integer-bounds-rounded", "openapi.getConstraints reads the bounds of an integer", fd.Pos(), "a fractional lower bound is rounded up, a fractional upper bound down",
+			"getConstraints hands the bound of an integer to a conversion that truncates towards zero: `level: {type: integer, minimum: 0.5}` is checked with `>= 0` and `floor: {maximum: -0.5}` with `<= 0` — Validate() accepts {\"level\":0}, which the schema forbids")
+	}
+	if fp := ctx.Pkg("internal/jsonschema"); fp == nil {
+		r.Undecided("anchor lost: internal/jsonschema")
+	} else if fd := c12Method(fp, "walkNumber"); fd == nil {
+		r.Undecided("anchor lost: jsonschema.generator.walkNumber")
+	} else {
+		info := fp.TypesInfo
+		knowsIntegers := func(f *types.Func) bool {
+			hfd, _ := ctx.DeclOf(f)
+			if hfd == nil || hfd.Body == nil {
+				return false
+			}
+			found := false
+			ast.Inspect(hfd.Body, func(k ast.Node) bool {
+				if c, ok := k.(*ast.CallExpr); ok {
+					if cf := callee(info, c); cf != nil && cf.FullName() == "(*math/big.Rat).IsInt" {
+						found = true
+					}
+				}
+				return true
+			})
+			return found
+		}
+		// variables holding the operator given by such a helper
+		ops := map[types.Object]bool{}
+		ast.Inspect(fd.Body, func(m ast.Node) bool {
+			if as, ok := m.(*ast.AssignStmt); ok && len(as.Rhs) == 1 && len(as.Lhs) >= 1 {
+				if c, ok := ast.Unparen(as.Rhs[0]).(*ast.CallExpr); ok && knowsIntegers(callee(info, c)) {
+					if id, ok := as.Lhs[0].(*ast.Ident); ok && namedName(info.TypeOf(id)) == "Op" {
+						ops[objOf(info, id)] = true
+					}
+				}
+			}
+			return true
+		})
+		bounds, fixed := 0, 0
+		ast.Inspect(fd.Body, func(m ast.Node) bool {
+			cl, ok := m.(*ast.CompositeLit)
+			if !ok || namedName(info.TypeOf(cl)) != "TypeConstraint" {
+				return true
+			}
+			for _, el := range cl.Elts {
+				kv, ok := el.(*ast.KeyValueExpr)
+				if !ok || exprString(kv.Key) != "Op" {
+					continue
+				}
+				if sel, ok := ast.Unparen(kv.Value).(*ast.SelectorExpr); ok {
+					// a constant operator
+					if strings.HasSuffix(sel.Sel.Name, "ThanOp") || strings.HasSuffix(sel.Sel.Name, "ThanEqualOp") {
+						bounds++
+						fixed++
+					}
+					continue
+				}
+				if id, ok := ast.Unparen(kv.Value).(*ast.Ident); ok && ops[objOf(info, id)] {
+					bounds++
+				}
+			}
+			return true
+		})
+		if bounds == 0 {
+			r.Undecided("anchor changed: jsonschema.walkNumber builds no bound")
+		} else {
+			n++
+			r.Check(fixed == 0, "frontier/integer-bounds-rounded", "jsonschema.walkNumber reads the bounds of a number", fd.Pos(), "operator and argument of every bound come from a helper that knows whether the bound is an integer",
+				fmt.Sprintf("%d of the %d bounds of walkNumber keep their operator whatever the bound: `{\"type\": \"integer\", \"minimum\": 0.5}` reaches the IR as `>= 0.5` on an int64 — `resource.Level >= 0.5` does not compile (0.5 truncated to int64); the integers the schema admits are those from 1", fixed, bounds))
+		}
+		// (b)
+		if rfd := c12Method(fp, "walkRef"); rfd == nil {
+			r.Undecided("anchor lost: jsonschema.generator.walkRef")
+		} else {
+			refuses := false
+			ast.Inspect(rfd.Body, func(m ast.Node) bool {
+				is, ok := m.(*ast.IfStmt)
+				if !ok || len(is.Body.List) == 0 {
+					return true
+				}
+				rs, ok := is.Body.List[len(is.Body.List)-1].(*ast.ReturnStmt)
+				if !ok || len(rs.Results) != 2 || isNilIdent(info, rs.Results[1]) {
+					return true
+				}
+				keywords := map[string]bool{}
+				ast.Inspect(is.Cond, func(k ast.Node) bool {
+					if sel, ok := k.(*ast.SelectorExpr); ok {
+						keywords[sel.Sel.Name] = true
+					}
+					return true
+				})
+				if keywords["Minimum"] && keywords["Maximum"] && keywords["MinLength"] && keywords["MaxLength"] {
+					refuses = true
+				}
+				return true
+			})
+			n++
+			r.Check(refuses, "frontier/ref-sibling-bounds-refused", "jsonschema.walkRef meets bounds written next to $ref", rfd.Pos(), "it leaves with an error",
+				"walkRef builds a reference and reads nothing but `default` from the schema that holds `$ref`: `\"limit\": {\"$ref\": \"#/$defs/Count\", \"maximum\": 10}` loses its maximum — Validate() accepts {\"limit\":11}, which the schema (2020-12: siblings of $ref apply) forbids")
+		}
+	}
+	// (c)
+	for _, name := range ts.names() {
+		if !strings.Contains(ts.file[name], "struct.strict.json_unmarshal") {
+			continue
+		}
+		walkTmpl(ts.trees[name].Root, func(m parse.Node) bool {
+			in, ok := m.(*parse.IfNode)
+			if !ok || !strings.Contains(tmplText(in.List), "required field is null") {
+				return true
+			}
+			cond := in.Pipe.String()
+			n++
+			r.Check(strings.Contains(cond, "resolveNullableAlias") || strings.Contains(cond, "resolveRefs"), "skeleton/strict-null-through-reference", "strict decoder answers `required field is null`", token.NoPos, "after asking the type a reference leads to",
+				ts.file[name]+": `required field is null` is decided on the reference alone (`"+cond+"`): `nickname` (required) referring to `MaybeName: {type: string, nullable: true}` refuses {\"nickname\":null}, which the schema admits")
+			return true
+		})
+	}
+	if tree := ts.trees[recValidate.define]; tree == nil {
+		r.Undecided("anchor lost: golang template %q", recValidate.define)
+	} else {
+		guarded := false
+		walkTmpl(tree.Root, func(m parse.Node) bool {
+			in, ok := m.(*parse.IfNode)
+			if !ok {
+				return true
+			}
+			cond := in.Pipe.String()
+			if strings.Contains(cond, ".Nullable") && strings.Contains(tmplText(in.List), "!= nil") {
+				// inside the referenced-scalar branch: the test is on a variable holding the resolved type
+				if strings.Contains(cond, "$resolved") || strings.Contains(cond, "resolveRefs") {
+					guarded = true
+				}
+			}
+			return true
+		})
+		n++
+		r.Check(guarded, "skeleton/validate-nullable-alias-guarded", recValidate.define+" checks a reference to a nullable scalar alias", token.NoPos, "under a nil test decided on the resolved type",
+			ts.file[recValidate.define]+": the constraints of a referenced scalar alias are written as if the alias were the scalar: `type MaybeName *string` with minLength 2 gives `len([]rune(resource.Nickname))` — cannot convert resource.Nickname (variable of type MaybeName) to type []rune, the package does not compile")
+	}
+	r.Count("hunted clauses of validation and strict decoding (5th hunt)", n)
+	r.Floor("hunted clauses of validation and strict decoding (5th hunt)", 5)
 }
